@@ -64,6 +64,22 @@ def run_cli(ctx):
         d = fresh("all-" + str(len(rows)))
         sign(d, [], b"")
         observe("generate-all, answer %r" % data, d, ARGS(F(a=True)), F(a=True), good, cls, data)
+    # 3b. the prompt is about every existing certificate FILE the run would overwrite, whatever made the plan select it: the issuer's
+    #     artifact is gone (it is created), the subordinate's is there (it follows its issuer and is replaced); and a new intermediate
+    #     CA put above an already signed leaf
+    for cls, data in answers:
+        d = fresh("below-%d" % len(rows), extra={"s.yaml": {"version": 1, "subject": "CN=CLI Sub, O=Cli", "issuer": "r"}})
+        sign(d, [], b"")
+        os.remove(os.path.join(d, "r.pem"))
+        observe("issuer artifact deleted, subordinate artifact exists, answer %r" % data, d, [], F(), dict(absent, exists=True), cls, data)
+        d = fresh("between-%d" % len(rows), extra={"s.yaml": {"version": 1, "subject": "CN=CLI Leaf, O=Cli", "issuer": "r"}})
+        sign(d, [], b"")
+        json.dump({"version": 1, "subject": "CN=CLI Mid, O=Cli", "issuer": "r"}, open(os.path.join(d, "m.yaml"), "w"))
+        json.dump({"version": 1, "subject": "CN=CLI Leaf, O=Cli", "issuer": "m"}, open(os.path.join(d, "s.yaml"), "w"))
+        t = time.time() - 7200
+        for f_ in ("m.yaml", "s.yaml"):
+            os.utime(os.path.join(d, f_), (t, t))
+        observe("new intermediate above a signed leaf, answer %r" % data, d, [], F(), dict(absent, exists=True), cls, data, allowed=("m.pem", "s.pem"), target="m.pem")
     # 4. flag mapping: exactly one reason holds, each single flag and the defaults
     for state in ("touched", "edited", "keymissing"):
         for fl in (None, F(), F(False, False, o=True), F(False, False, e=True), F(False, True), F(True, False), F(False, False, a=True)):
